@@ -156,7 +156,7 @@ def bounds(tier):
 
 def units(tier, seed):
   amps = sorted({p[0] for p in core.palette(seed, tier)}, reverse=True)  # quick: one amplitude, thorough: 1.0 and 0.75
-  us = []
+  us = [dict(kind='extra_coords')]
   # dictionaries
   for lattice, n in (('design', 4), ('emptykey', 2), ('sepkeys', 1)) + ((('deeper', 24),) if tier == 'thorough' else ()):
     for sep in ('&', '/'):
@@ -252,7 +252,45 @@ def _same_discretisation(rec, key, c2, numbers, spacing, offset, radius, vspec, 
 
 def work(unit, rec):
   {'dicts': _work_dicts, 'replace': _work_replace, 'pytrees': _work_pytrees, 'coords': _work_coords,
-   'states': _work_states, 'spectral': _work_spectral}[unit['kind']](unit, rec)
+   'states': _work_states, 'spectral': _work_spectral, 'extra_coords': _work_extra_coords}[unit['kind']](unit, rec)
+
+
+def _work_extra_coords(unit, rec):
+  """data_to_xarray with a caller-supplied additional coordinate: dimension names are inferred from shapes, so a
+  coordinate whose length equals the number of levels is ambiguous and is documented to be refused (ValueError); any
+  other length must label its own fields and leave the vertical axis of every 3-d field named `level`."""
+  from dinosaur import xarray_utils as xu
+  from dinosaur import coordinate_systems as cs, sigma_coordinates as sc, spherical_harmonic as sh
+  for K in (1, 2, 3, 5):
+    grid = sh.Grid.with_wavenumbers(4)
+    coords = cs.CoordinateSystem(grid, sc.SigmaCoordinates.equidistant(K))
+    ms = grid.modal_shape
+    # length 1 is left out: a leading singleton axis is the library's own `surface` convention (shape-based inference)
+    for n in sorted(x for x in {K - 1, K, K + 1, K + 3} if x >= 2 or x == K):
+      key = ('extra_coords', K, n)
+      member = np.arange(n, dtype=np.float64) * 10.0
+      data = {'vorticity': np.arange(K * ms[0] * ms[1], dtype=np.float64).reshape((K,) + ms),
+              'per_member': np.arange(n * ms[0] * ms[1], dtype=np.float64).reshape((n,) + ms) + 0.5}
+      try:
+        ds = xu.data_to_xarray(data, coords=coords, times=None, additional_coords={'member': member})
+        err = None
+      except ValueError as e:
+        ds, err = None, str(e)[:160]
+      rec.case(key, transitions=1, outcome=(err is None, n == K), sample={'levels': K, 'additional_coordinate_length': n, 'outcome': 'refused: ' + err if err else 'dataset'})
+      if n == K:
+        # ambiguous by construction: refusal is the documented outcome; a dataset is acceptable only if it is labelled correctly
+        if err is not None:
+          rec.note('ambiguous_additional_coordinate_refused_as_documented')
+          continue
+      else:
+        if not rec.check(err is None, 'additional_coordinate_accepted', key, {'error': err}):
+          continue
+      ok = ds['vorticity'].dims[0] == xu.XR_LEVEL_NAME and xu.XR_LEVEL_NAME in ds.coords and \
+          bool(np.array_equal(np.asarray(ds.coords[xu.XR_LEVEL_NAME]), np.asarray(coords.vertical.centers)))
+      rec.check(ok, 'vertical_axis_keeps_the_level_dimension', key, {'dims': list(ds['vorticity'].dims), 'coords': sorted(map(str, ds.coords))})
+      if n != K:
+        rec.check(ds['per_member'].dims[0] == 'member', 'additional_coordinate_labels_its_fields', key, {'dims': list(ds['per_member'].dims)})
+      rec.exact(np.asarray(ds['vorticity'].values), data['vorticity'], site='values_unchanged_with_additional_coordinate', key=key)
 
 
 # -- nested dictionaries -----------------------------------------------------------------------------
